@@ -262,7 +262,6 @@ pub struct PngOutcome {
     pub err: String,
     /// bytes found on disk afterwards (None: no regular file there)
     pub file: Option<Vec<u8>>,
-    pub fault_fired: bool,
 }
 
 #[derive(Clone, Debug, Default)]
@@ -470,7 +469,6 @@ impl World {
                 Err(e) => format!("{}", e),
             },
             file,
-            fault_fired: false,
         };
         self.last_png = Some(out);
     }
